@@ -919,10 +919,11 @@ fn part6(res: &mut JobResult) {
                 }
                 Ok(code) => {
                     res.nontrivial_keys.push(hash64(format!("{aname}{method}{path}").as_bytes()));
-                    if !is_public && code != 401 {
+                    // refused = 401 (or 403); anything else means the request got past authentication
+                    if !is_public && code != 401 && code != 403 {
                         res.violations.push(v(
                             &format!("C09:http-route-without-token:{method} {bare}"),
-                            format!("{method} {path} with {aname} was answered with HTTP {code}, not 401; the path is not among the endpoints the server declares public ({public:?})"),
+                            format!("{method} {path} with {aname} was answered with HTTP {code}, not 401/403; the path is not among the endpoints the server declares public ({public:?})"),
                             json!({"kind":"perm6","method": method, "path": path, "auth": aname}),
                         ));
                     }
